@@ -136,7 +136,7 @@ def _guarded_iter(results, ex):
         ex.shutdown(wait=False, cancel_futures=True)
 
 
-def run(ctx, per_db_quick=130, per_db_thorough=600):
+def run(ctx, per_db_quick=48, per_db_thorough=600):
     sc = C.Scratch()
     try:
         r = ctx.rng
@@ -228,6 +228,8 @@ def run(ctx, per_db_quick=130, per_db_thorough=600):
         ex = ThreadPoolExecutor(max_workers=14)
         slowest = 0.0
         hangs = 0
+        model_retry = []
+        hang_candidates = []
         results = ex.map(one, enumerate(jobs))
         # (results are judged as they arrive, so that an interrupted search keeps what it found; when the search
         # budget's alarm interrupts the wait the jobs still queued are not started)
@@ -239,12 +241,13 @@ def run(ctx, per_db_quick=130, per_db_thorough=600):
             ctx.evals += 1
             n0 = len(ctx.oracle_failures)
             if impl.get("timeout"):
-                ctx.branch("impl:timeout")
-                ctx.oracle_fail("hang", f"processing a damaged file did not finish within {limit:.0f} s", case, "timeout", f"<= {limit:.0f} s")
+                # judged after the pool has drained: the same file is processed again with the machine to itself, and only
+                # a second time-out is a hang (fourteen workers share the cores; a time-out under load is not evidence)
+                ctx.branch("impl:timeout-under-load")
+                hang_candidates.append((p, wal, strict, limit, case))
                 hangs += 1
                 if hangs >= 3:
                     # three workers ran into their time limit: that decides the run; the copies still queued are not started
-                    C.keep_failing_files(ctx, n0, p, wal)
                     ctx.notes.append("stopped after three time-outs")
                     break
             elif impl.get("crashed"):
@@ -262,7 +265,9 @@ def run(ctx, per_db_quick=130, per_db_thorough=600):
                 if impl["prefix"].startswith("memory-error") or impl["rss_kb"] > 1 << 20:
                     ctx.oracle_fail("memory", "memory use beyond 1 GiB on a damaged file", case, impl["rss_kb"], "< 1 GiB")
                 if model is None:
-                    ctx.disagreements.append({"label": "db.dump(corrupt)", "op": str(desc), "div": "model timed out"})
+                    # the model did not answer in time while fourteen workers shared the machine: asked again, alone,
+                    # after the pool has drained (a time-out of the model is not evidence about the code)
+                    model_retry.append((p, desc, wal, strict, impl))
                 elif "@schema-sql" in impl["prefix"] or model.startswith("err outsideModel"):
                     ctx.branch("outside-model")
                 else:
@@ -280,6 +285,33 @@ def run(ctx, per_db_quick=130, per_db_thorough=600):
             if len(ctx.oracle_failures) > n0:
                 C.keep_failing_files(ctx, n0, p, wal)
             ctx.sample({"corruption": desc, "impl": impl.get("prefix", str(impl))[:80]}, cap=6)
+        for p, wal, strict, limit, case in hang_candidates:
+            n0 = len(ctx.oracle_failures)
+            again = run_impl(p, limit, wal, True, strict)
+            if again.get("timeout"):
+                ctx.branch("impl:timeout")
+                ctx.oracle_fail("hang", f"processing a damaged file did not finish within {limit:.0f} s (twice; the second time alone)",
+                                case, "timeout", f"<= {limit:.0f} s")
+                C.keep_failing_files(ctx, n0, p, wal)
+            elif again.get("crashed"):
+                ctx.oracle_fail("crash", f"the interpreter died (exit code {again.get('exitcode')}) on a damaged file", case, "crash", "result or exception")
+                C.keep_failing_files(ctx, n0, p, wal)
+            else:
+                slowest = max(slowest, again["time"])
+        for p, desc, wal, strict, impl in model_retry[:40]:
+            model = run_model(p, impl["frames"], 600.0, wal, strict)
+            ctx.branch("model:asked-again")
+            if model is None:
+                ctx.disagreements.append({"label": "db.dump(corrupt)", "op": str(desc), "div": "model timed out (600 s, alone)"})
+            elif "@schema-sql" in impl["prefix"] or model.startswith("err outsideModel"):
+                ctx.branch("outside-model")
+            elif hashlib.sha1(model.encode()).hexdigest() != impl["sha"]:
+                full = impl.get("full") or impl["prefix"]
+                k = next((i for i, (a, b) in enumerate(zip(full, model)) if a != b), min(len(full), len(model)))
+                ctx.disagreements.append({"label": "db.dump(corrupt)", "op": str(desc)[:300], "at": k,
+                                          "impl": full[max(0, k - 200):k + 120], "model": model[max(0, k - 200):k + 120]})
+        if len(model_retry) > 40:
+            ctx.notes.append(f"{len(model_retry) - 40} model time-outs not asked again")
         ctx.extra["slowest_parse_s"] = round(slowest, 2)
         ctx.extra["time_limit_rule"] = "max(10 s, 200 x clean parse time)"
     finally:
